@@ -275,8 +275,8 @@ U("c08-location-of", "boxcar", "c08_location_of", {"C08": "quick"}, "complete", 
 U("c08-location-order", "boxcar", "c08_location_order", {"C08": "quick"}, "complete", ["boxcar::Location::of"],
   "for all i < j: slot(i) < slot(j) lexicographically")
 for t in ("u8", "u64", "24"):
-    U("c08-entry-layout-" + t, "boxcar", "c08_entry_layout_" + t, {"C08": "quick", "C11": "quick"}, "complete", ["boxcar::Entry::layout", "boxcar::Bucket::layout", "boxcar::Bucket::get"],
-      "for all columns <= 65536, buckets 0..8, entry idx: columns lie inside the entry, entry lies inside the bucket allocation, Bucket::get addresses it (payload type %s)" % t)
+    U("c08-entry-layout-" + t, "boxcar", "c08_entry_layout_" + t, {"C08": "quick", "C11": "quick"}, "bounded", ["boxcar::Entry::layout", "boxcar::Bucket::layout", "boxcar::Bucket::get"], bound="columns <= 64, buckets 0..3 (32/64/128 entries), every entry index; loop-free", desc=
+      "for all columns <= 64, buckets 0..3, entry idx: columns lie inside the entry, entry lies inside the bucket allocation, Bucket::get addresses it (payload type %s)" % t)
 VEC_FNS = ["boxcar::Vec::with_capacity", "boxcar::Vec::push", "boxcar::Vec::extend", "boxcar::Vec::get", "boxcar::Vec::count", "boxcar::Vec::get_or_alloc", "boxcar::Bucket::alloc", "boxcar::Entry::read"]
 for cap in (0, 1, 33):
     for cols in (1, 2):
@@ -288,7 +288,7 @@ for cap in (0, 1, 33):
 for (cap, cols, pre, actual) in ((0, 1, 0, 1), (0, 1, 0, 3), (1, 1, 30, 0), (1, 1, 30, 2), (1, 1, 30, 3), (0, 2, 94, 3), (0, 1, 100, 1)):
     UC("c08-vec-extend-get-cap%d-cols%d-pre%d-act%d" % (cap, cols, pre, actual), "boxcar", "vec_extend_get::<%d,%d,%d,%d>()" % (cap, cols, pre, actual), {"C08": "quick"}, "bounded", VEC_FNS,
        "[reserve PRE unfilled]; extend(reports 3, yields %d); push; get: indices reserved as reported, filled as yielded, unfilled read as nothing, next push continues gap-free (batch crosses a bucket boundary for PRE=30/94)" % actual,
-       unwind=70, bound="batch of 3 (yielding %d) starting at index %d, capacity %d, %d column(s); single thread" % (actual, pre, cap, cols), cost=8, timeout=1500)
+       unwind=70 if pre < 90 else 135, bound="batch of 3 (yielding %d) starting at index %d, capacity %d, %d column(s); single thread" % (actual, pre, cap, cols), cost=8, timeout=1500)
 for rep in (1, 2):
     UC("c08-vec-extend-overreport-%d" % rep, "boxcar", "vec_extend_overreport_panics::<%d>()" % rep, {"C08": "quick"}, "bounded", VEC_FNS[:3],
        "extend with an ExactSizeIterator that reports %d item(s) but yields %d panics (the lie is caught) instead of writing to an index it never reserved" % (rep, rep + 1),
@@ -318,7 +318,8 @@ SORT = [("insertion_sort", "insertion-sort", (6,), "sorted permutation"),
 for fn, tag, lens, what in SORT:
     for L in lens:
         UC("c18-%s-%d" % (tag, L), "par_sort", "k18_%s::<%d>()" % (fn, L), {"C18": "quick"}, "bounded", ["par_sort::" + fn],
-           "%s: %s" % (fn, what), unwind=L + 3, bound="every array of %d bytes, strict weak order = low 2 bits (ties with distinguishable payloads)" % L, cost=6, timeout=1500)
+           "%s: %s" % (fn, what), unwind=L + 3, bound="every array of %d bytes, strict weak order = low 2 bits (ties with distinguishable payloads)" % L, cost=6, timeout=1500,
+           stubs=[("rayon::join", "crate::par_sort::verif_par_sort::seq_join")] if fn == "par_quicksort" else [])
 UC("c18-canary", "par_sort", "k18_canary()", {"C18": "quick"}, "bounded", [], "canary", unwind=8, expect="fail", no_cover=True)
 
 # ---------------------------------------------------------------------------
@@ -352,7 +353,7 @@ for rep in (1, 2, 3, 4):
             shapes = ((4, 2),) if alg <= 2 else ()
         for (h, n) in shapes:
             heavy = alg == 0 and 2 <= n < h
-            tier = "quick" if ((rep == 1 and (h, n) in ((4, 2), (3, 3))) or (rep == 2 and (h, n) == (4, 2) and not heavy) or rep in (3, 4)) else "thorough"
+            tier = "quick" if ((rep == 1 and (h, n) in ((4, 2), (3, 3))) or (rep == 1 and (h, n) == (4, 1) and alg in (0, 2)) or (rep == 2 and (h, n) == (4, 2)) or rep in (3, 4)) else "thorough"
             tag = "r%d-%s-h%d-n%d" % (rep, aname, h, n)
             bound = "entry point %s, %s, haystack %d, needle %d, chars from the model domain (ASCII + 16 non-ASCII), DEFAULT config" % (aname, REPNAME[rep], h, n)
             dp = dict((p, tier) for p in decp)
